@@ -233,7 +233,7 @@ func plans(c *core.Ctx) []plan {
 }
 
 func run(c *core.Ctx) {
-	c.Rule = "messages = all slot lists of length <=k over the slots that place a string or bytes value in some position (singular, repeated, oneof member, map key, map value, extension, nested, inside a lazy submessage) of each listed type, with 6 valid and 5 invalid UTF-8 strings (lone continuation, overlong, surrogate, truncated, embedded 0xff). Expected = an invalid string sits in a position whose field enforces validation (proto3, editions VERIFY). Binary Marshal (generated + dynamicpb), binary Unmarshal of independently encoded bytes (lazy, eager, dynamicpb), protojson and prototext Marshal, and protojson/prototext Unmarshal of documents carrying the raw bytes must fail exactly then; for non-enforced string and for bytes positions binary and text round trips must return the identical bytes. distinct = distinct (type, slot list)"
+	c.Rule = "messages = all slot lists of length <=k over the slots that place a string or bytes value in some position (singular, repeated, oneof member, map key, map value, extension, nested, inside a lazy submessage) of each listed type, with 7 valid (among them U+FFFD, the valid encoding of the replacement character) and 5 invalid UTF-8 strings (lone continuation, overlong, surrogate, truncated, embedded 0xff). Expected = an invalid string sits in a position whose field enforces validation (proto3, editions VERIFY). Binary Marshal (generated + dynamicpb), binary Unmarshal of independently encoded bytes (lazy, eager, dynamicpb), protojson and prototext Marshal, and protojson/prototext Unmarshal of documents carrying the raw bytes must fail exactly then; for non-enforced string and for bytes positions binary and text round trips must return the identical bytes. distinct = distinct (type, slot list)"
 	c.Exhaustive = true
 	c.Assume("raw (unescaped) invalid UTF-8 bytes inside a text-format document are left unconstrained for non-validated fields (prototext rejects them; the escaped form produced by Marshal round-trips and is checked)")
 	c.Assume("protojson on invalid UTF-8 in NON-validated string fields is left unconstrained (the statement covers binary and text pass-through only)")
